@@ -737,6 +737,15 @@ def _seed_ok(ctx, fi: FuncInfo) -> tuple[bool, str, Optional[ast.AST]]:
         if sd not in good:
             return False, "random.seed is called with something other than the seed parameter", sd
     seed_nodes = [cfg.stmt_node_containing(x) for x in good]
+    # `if seed is not None: random.seed(seed)`: for every seed value the caller can name, the generator is seeded; None is
+    # the documented way of asking for no seeding.  The if statement then stands for the seeding.
+    for x in good:
+        for st in own_walk(fn):
+            if isinstance(st, ast.If) and not st.orelse and len(st.body) == 1 and any(y is x for y in ast.walk(st.body[0])) \
+                    and isinstance(st.test, ast.Compare) and len(st.test.ops) == 1 and isinstance(st.test.ops[0], ast.IsNot) \
+                    and isinstance(st.test.comparators[0], ast.Constant) and st.test.comparators[0].value is None \
+                    and isinstance(st.test.left, ast.Name) and st.test.left.id in names_in(x.args[0]):
+                seed_nodes.append(cfg.node_of(st))
     n_global = 0
     for f2, node, q in s["global"]:
         n_global += 1
@@ -982,18 +991,84 @@ def r_retry(ctx) -> RuleResult:
                 return isinstance(test.ops[0], ast.Eq)
         return None
 
+    def edge_kind(f_, x, depth=0):
+        """how an expression holds bonds: 'view' (a graph's edge view: compares without regard to orientation), 'sorted'
+        (a set of pairs put in value order), 'raw' (pairs as stored), None (not a bond collection this rule reads)"""
+        if depth > 5 or x is None:
+            return None
+        if isinstance(x, ast.Attribute) and x.attr == "edges":
+            return "view"
+        if isinstance(x, ast.Call) and isinstance(x.func, ast.Attribute) and x.func.attr == "edges" and not x.args and not x.keywords:
+            return "view"
+        if isinstance(x, ast.Name):
+            ds = [d_ for d_ in assigned_names(f_.node).get(x.id, []) if isinstance(d_, (ast.Assign, ast.AnnAssign)) and d_.value is not None]
+            ks = {edge_kind(f_, d_.value, depth + 1) for d_ in ds}
+            return ks.pop() if len(ks) == 1 else None
+        if isinstance(x, ast.Call) and isinstance(x.func, ast.Name) and x.func.id in ("set", "frozenset", "list", "sorted", "tuple") and x.args:
+            k_ = edge_kind(f_, x.args[0], depth + 1)
+            return "raw" if k_ == "view" else k_
+        if isinstance(x, (ast.SetComp, ast.ListComp, ast.GeneratorExp)) and len(x.generators) == 1:
+            src_k = edge_kind(f_, x.generators[0].iter, depth + 1)
+            if src_k is None:
+                return None
+            el = x.elt
+            ordered = (isinstance(el, ast.Call) and isinstance(el.func, ast.Name) and el.func.id in ("tuple", "frozenset") and el.args
+                       and (el.func.id == "frozenset" or (isinstance(el.args[0], ast.Call) and isinstance(el.args[0].func, ast.Name) and el.args[0].func.id == "sorted"))) \
+                or (isinstance(el, ast.Tuple) and len(el.elts) == 2 and all(isinstance(c_, ast.Call) and isinstance(c_.func, ast.Name) and c_.func.id in ("min", "max") for c_ in el.elts))
+            if ordered:
+                return "sorted"
+            if isinstance(el, ast.Name) or (isinstance(el, ast.Tuple) and all(isinstance(c_, (ast.Name, ast.Subscript)) for c_ in el.elts)):
+                return "raw" if src_k in ("view", "raw") else src_k
+            return None
+        if isinstance(x, ast.Call):
+            cs_ = ctx.cg.resolve_call(f_, x, ctx.cg.local_types(f_), set(params_of(f_.node)))
+            if cs_.kind == "tucan":
+                rs_ = [r_.value for r_ in own_walk(cs_.target.node) if isinstance(r_, ast.Return) and r_.value is not None]
+                ks = set()
+                for r_ in rs_:
+                    k_ = edge_kind(cs_.target, r_, depth + 1)
+                    if k_ is None and isinstance(r_, (ast.SetComp, ast.ListComp, ast.GeneratorExp)):
+                        # a comprehension over a parameter: the element form decides
+                        probe = ast.SetComp(r_.elt, [ast.comprehension(r_.generators[0].target, ast.Attribute(ast.Name("_g", ast.Load()), "edges", ast.Load()), [], 0)])
+                        k_ = edge_kind(cs_.target, ast.fix_missing_locations(ast.copy_location(probe, r_)), depth + 1)
+                    ks.add(k_)
+                return ks.pop() if len(ks) == 1 else None
+        return None
+
     for ret in rets:
-        if not isinstance(ret.value, ast.Name):
-            res.inst(fi.fq, short(ret), "fail")
-            res.fail(Finding("R-RETRY", fi.module.rel, fi.qualname, norm(ret), "returned value is not the checked candidate variable", line=ret.lineno))
-            continue
-        var = ret.value.id
+        cand_vars = set()
+        if isinstance(ret.value, ast.Name):
+            cand_vars = {ret.value.id}
+        elif isinstance(ret.value, ast.Call):
+            # return build(m, candidate): the candidate is what the retry loop draws again
+            loop_assigned = {nm for w_ in own_walk(fn) if isinstance(w_, ast.While) for x_ in ast.walk(w_) if isinstance(x_, ast.Name) and isinstance(x_.ctx, ast.Store) for nm in [x_.id]}
+            cand_vars = {a_.id for a_ in ret.value.args if isinstance(a_, ast.Name) and a_.id in loop_assigned}
+        if not cand_vars:
+            raise AnalysisError(f"R-RETRY: cannot tell which candidate `{short(ret)}` hands back (neither a name nor a call on something the retry loop draws again)")
+        var = sorted(cand_vars)[0]
         rn = cfg.node_of(ret)
         # guard tests: nodes T with is_edge_eq; the "accepting" edge is false for ==, true for !=
         guards = {}
         for n, a in cfg.ast.items():
             if cfg.kind[n] == "test" and hasattr(a, "test"):
                 pol = is_edge_eq(a.test, var)
+                if pol is None and isinstance(a.test, ast.Compare) and len(a.test.ops) == 1 and isinstance(a.test.ops[0], (ast.Eq, ast.NotEq)):
+                    # the general form: one side holds the bonds of the argument, the other mentions the candidate
+                    l_, r_ = a.test.left, a.test.comparators[0]
+                    kl, kr = edge_kind(fi, l_), edge_kind(fi, r_)
+                    mentions = lambda e_: bool({x_.id for x_ in ast.walk(e_) if isinstance(x_, ast.Name)} & cand_vars)  # noqa: E731
+                    if kl is not None and kr is not None and (mentions(l_) != mentions(r_)):
+                        if {kl, kr} == {"sorted", "raw"}:
+                            res.inst(fi.fq, short(a.test, 70), "fail")
+                            res.fail(Finding("R-RETRY", fi.module.rel, fi.qualname, norm(a.test),
+                                             "the changed-bond-set test compares pairs put in value order with pairs as the graph stores them: for a graph whose atoms are not stored "
+                                             "in label order the two never compare equal, the loop never retries, and a permutation that leaves the bond set unchanged is returned", line=a.test.lineno))
+                            guards[n] = "false" if isinstance(a.test.ops[0], ast.Eq) else "true"
+                            continue
+                        if kl == kr and kl in ("view", "sorted"):
+                            pol = isinstance(a.test.ops[0], ast.Eq)
+                        else:
+                            raise AnalysisError(f"R-RETRY: cannot tell whether `{short(a.test, 60)}` compares the two bond sets without regard to orientation ({kl} vs {kr})")
                 if pol is not None:
                     guards[n] = "false" if pol else "true"
         # enforce tests: `if <cond>` whose cond evaluates True for (edges>=2, density<1)
@@ -1843,6 +1918,38 @@ def _assert_discharged(ctx, fi: FuncInfo, a: ast.Assert) -> tuple[bool, str]:
     cfg = cfg_of(fn)
     explored = ctx.repo.try_const("tucan.graph_attributes", "EXPLORED")
     loops = [w for w in own_walk(fn) if isinstance(w, ast.While) and isinstance(w.test, ast.NamedExpr)]
+    # form C: a loop over *all* nodes; each pass starts a queue with that node and the first thing the traversal does with a
+    # node taken from the queue is to give it a label (unless it has one): so every node has a label after its own pass
+    gname = params_of(fn)[0] if params_of(fn) else None
+    all_nodes = {gname, f"sorted({gname})", f"{gname}.nodes", f"sorted({gname}.nodes)", f"sorted({gname}.nodes())", f"{gname}.nodes()", f"list({gname})", f"sorted(list({gname}))"}
+    for lp in [x for x in own_walk(fn) if isinstance(x, ast.For)]:
+        if norm(lp.iter) not in all_nodes or not isinstance(lp.target, ast.Name):
+            continue
+        x_ = lp.target.id
+        q_ = None
+        for st_ in lp.body:
+            if isinstance(st_, ast.Assign) and isinstance(st_.targets[0], ast.Name) and norm(st_.value) in (f"deque([{x_}])", f"[{x_}]", f"collections.deque([{x_}])"):
+                q_ = st_.targets[0].id
+        wl = next((w for w in lp.body if isinstance(w, ast.While) and q_ is not None and norm(w.test) in (q_, f"len({q_}) > 0", f"len({q_})")), None)
+        if wl is None:
+            continue
+        body = list(wl.body)
+        if not (body and isinstance(body[0], ast.Assign) and isinstance(body[0].targets[0], ast.Name) and norm(body[0].value) in (f"{q_}.pop()", f"{q_}.popleft()", f"{q_}.pop(0)")):
+            continue
+        a_ = body[0].targets[0].id
+        rest = body[1:]
+        if rest and isinstance(rest[0], ast.If) and norm(rest[0].test) == f"{a_} in {mapping}" and len(rest[0].body) == 1 and isinstance(rest[0].body[0], ast.Continue) and not rest[0].orelse:
+            rest = rest[1:]
+        if rest and isinstance(rest[0], ast.Assign) and isinstance(rest[0].targets[0], ast.Subscript) and norm(rest[0].targets[0].value) == mapping and norm(rest[0].targets[0].slice) == a_:
+            # nothing else touches the queue between its creation and the loop, and the pass is not left before the loop
+            i_q = next(i for i, st_ in enumerate(lp.body) if isinstance(st_, ast.Assign) and isinstance(st_.targets[0], ast.Name) and st_.targets[0].id == q_)
+            i_w = lp.body.index(wl)
+            between = lp.body[i_q + 1:i_w]
+            before = lp.body[:i_q]
+            ok_before = all(isinstance(b_, ast.If) and norm(b_.test) == f"{x_} in {mapping}" and len(b_.body) == 1 and isinstance(b_.body[0], ast.Continue) and not b_.orelse for b_ in before)
+            if not between and ok_before and cfg.node_of(lp) is not None and cfg.node_of(a) is not None and cfg.dominates(cfg.node_of(lp), cfg.node_of(a)) \
+                    and not any(isinstance(y, (ast.Break, ast.Return)) for y in ast.walk(lp)):
+                return True, f"every node starts a queue in its own pass of `{short(lp, 40)}` and the first node taken from a queue is labelled unless it has a label"
     if not loops:
         raise AnalysisError(f"R-FAILSITES: `{short(a)}` in {fi.qualname}: the traversal that fills `{mapping}` is not written as the `while unexplored := ...` loop this rule reads; "
                             "whether every node has a label at that point is neither proved nor refuted")
@@ -2024,6 +2131,18 @@ def _node_label_map(fi: FuncInfo, e: ast.expr, depth=0):
                         return ("zip", norm(g.iter.args[1]), norm(g.iter.args[0]))
         if isinstance(lab, ast.Name) and isinstance(dat, ast.Name) and isinstance(g.target, ast.Tuple) and [norm(t) for t in g.target.elts] == [lab.id, dat.id]:
             return _node_label_map(fi, g.iter, depth + 1)
+        # (atom, {...new data...}) for atom, .. in src.nodes(..): the labels are the source's own, whatever data goes with them
+        if isinstance(lab, ast.Name) and isinstance(g.target, ast.Tuple) and g.target.elts and isinstance(g.target.elts[0], ast.Name) and g.target.elts[0].id == lab.id \
+                and _node_label_map(fi, g.iter, depth + 1) == "same":
+            return "same"
+        if isinstance(lab, ast.Name) and isinstance(g.target, ast.Name) and g.target.id == lab.id and not isinstance(dat, ast.Subscript):
+            it_ = g.iter
+            if (isinstance(it_, ast.Name)) or (isinstance(it_, ast.Attribute) and it_.attr == "nodes") or _node_label_map(fi, it_, depth + 1) == "same":
+                return "same"
+        # (M[atom], {...}) for atom, .. in src.nodes(..)
+        if isinstance(lab, ast.Subscript) and isinstance(lab.value, ast.Name) and isinstance(lab.slice, ast.Name) and isinstance(g.target, ast.Tuple) and g.target.elts \
+                and isinstance(g.target.elts[0], ast.Name) and g.target.elts[0].id == lab.slice.id and _node_label_map(fi, g.iter, depth + 1) == "same":
+            return _mapping_descriptor(fi, lab.value)
         # (M[old], attrs) for old, attrs in src.nodes(data=True)
         if isinstance(lab, ast.Subscript) and isinstance(lab.value, ast.Name) and isinstance(lab.slice, ast.Name) and isinstance(dat, ast.Name) \
                 and isinstance(g.target, ast.Tuple) and [norm(t) for t in g.target.elts] == [lab.slice.id, dat.id] and _node_label_map(fi, g.iter, depth + 1) == "same":
